@@ -253,3 +253,104 @@ Example C03_codec_oracle_rejects :
   wal_spec_accepts (one_read (mkRO 60 (Pfx 2) 60 ROk)) = true /\
   wal_model_agrees (one_read (mkRO 60 (Pfx 2) 60 ROk)) = true.
 Proof. vm_compute. repeat split; reflexivity. Qed.
+
+(* ---- the oracle of the C03 check on crash states (Spec/HistObs.v) and layer (2) ----
+   Every run of the check evaluates, per crash point, the case (events, observations) with events =
+   the history so far, `HEv (EvCrashInLog st j)`, a read-back of every table, further statements, a
+   read-back, a crash-restart, a read-back: `model_agrees` (Go's observations equal run_h's) and the
+   strict oracle `spec_accepts_strict` (after the crash: SOME row-operation prefix of st, in order -
+   TableSpec.stmt_prefixes -, which the read-back must single out; ids never reused; later refusals
+   only where the specification refuses). Agreement implies acceptance (Proofs/OracleTorn.v), for
+   EVERY case built from statements, flushes, crash-restarts, torn flushes, crashes inside a log
+   append, read-backs and page dumps, under boolean hypotheses on the events alone:
+     hev_ok / hev_stmt_shape / frontier_ok / reads_cover / strict_hev   as for C01 (C01full.v);
+     torn_ok: each `EvCrashInLog st j` has st an INSERT / UPDATE / DELETE that the model
+       acknowledges (cil_stmt_ok) and is followed by nothing or by a read-back naming st's table;
+       each `EvTornFlush W` is one the model defines (torn_disk = Some _).
+   The model side is C03_prefix_state (with (H2) from MovesFromRep.rep_moves_ok, not assumed); the
+   specification side is OracleTorn.prefix_ok: the store after the first i row operations
+   represents a member of stmt_prefixes. Each part of torn_ok is needed: OracleTorn.
+   oracle_needs_cil_acknowledged, strict_oracle_needs_readback_after_cil, oracle_needs_torn_defined. *)
+From Mkdb Require Import Spec.TableSpec Spec.HistObs Proofs.RefineRep Proofs.RefineMain Proofs.MovesFromRep Proofs.OracleIds
+  Proofs.RefineCat Proofs.OracleKeys Proofs.OracleSound Proofs.OracleCrash Proofs.OracleTorn.
+
+Theorem C03_agreement_implies_acceptance : forall c,
+  forallb hev_ok (fst c) = true -> forallb hev_stmt_shape (fst c) = true ->
+  frontier_ok init_sys (fst c) = true -> reads_cover [] [] [] (fst c) = true ->
+  forallb strict_hev (fst c) = true -> torn_ok init_sys (fst c) = true ->
+  model_agrees c = true -> spec_accepts_strict c = true.
+Proof. exact agreement_implies_strict_acceptance_torn. Qed.
+Print Assumptions C03_agreement_implies_acceptance.
+
+(* the model's own behaviour is accepted *)
+Theorem C03_oracle_accepts_model : forall hevs,
+  forallb hev_ok hevs = true -> forallb hev_stmt_shape hevs = true ->
+  frontier_ok init_sys hevs = true -> reads_cover [] [] [] hevs = true ->
+  forallb strict_hev hevs = true -> torn_ok init_sys hevs = true ->
+  spec_accepts_strict (hevs, run_h init_sys hevs) = true.
+Proof. exact model_passes_oracle_torn_strict. Qed.
+Print Assumptions C03_oracle_accepts_model.
+
+(* the specification side of C03_prefix_state, for one store *)
+Theorem C03_prefix_represents : forall s d st c i,
+  Rep s d -> SelfOk s -> RefineMain.stmt_ok st = true -> stmt_shape st = true -> is_dml st = true ->
+  nextFree (e_store (run_stmt s st)) <= OFFMAX -> e_out (run_stmt s st) = OOk c ->
+  exists t d_i, find_tbl (stmt_table st) d = Some t /\ is_sys (stmt_table st) = false /\
+    In d_i (stmt_prefixes d st) /\
+    Rep (run_rows s st i) d_i /\ SelfOk (run_rows s st i) /\ IdExt s (run_rows s st i) /\ KeyKept s (run_rows s st i).
+Proof. exact prefix_ok. Qed.
+Print Assumptions C03_prefix_represents.
+
+(* non-vacuity, in the shape of the check's cases: ex_pre (CREATE TABLE, 8 rows), then the 3-row
+   INSERT ex_stmt whose first row splits the root leaf (records [insert; catalog update; insert;
+   insert]) cut after 1 record = inside the pair, read-back (1 of the 3 rows is there: the oracle's
+   4 candidates are narrowed to one), a refused INSERT, a DELETE, an UPDATE of 5 rows cut after 2
+   records, read-back, crash-restart, read-back *)
+Definition hx_row (i : Z) : list value := [VInt i].
+Definition hx_case : list hevent :=
+  map HEv ex_pre ++
+  [HReadTables ["t"];
+   HEv (EvCrashInLog ex_stmt 1);
+   HReadTables ["t"; "sys_schema"];
+   HEv (EvStmt (SInsert "t" [] [[VInt 2147483648]]));
+   HEv (EvStmt (SDelete "t" (Some (EPred (XCol (mkCol "" "a")) CEq (XLit (VInt 2))))));
+   HReadTables ["t"];
+   HEv (EvCrashInLog (SUpdate "t" [("a", XLit (VInt 50))] (Some (EPred (XCol (mkCol "" "a")) CLt (XLit (VInt 6))))) 2);
+   HReadTables ["t"];
+   HEv EvCrash;
+   HReadTables ["t"; "sys_schema"]].
+
+Example C03_agreement_nonvacuous :
+  forallb hev_ok hx_case = true /\ forallb hev_stmt_shape hx_case = true /\
+  frontier_ok init_sys hx_case = true /\ reads_cover [] [] [] hx_case = true /\
+  forallb strict_hev hx_case = true /\ torn_ok init_sys hx_case = true /\ hist_shape_c hx_case = false /\
+  model_agrees (hx_case, run_h init_sys hx_case) = true /\
+  spec_accepts_strict (hx_case, run_h init_sys hx_case) = true /\
+  skipn 9 (map (fun o => match o with HOut x => Some x | _ => None end) (run_h init_sys hx_case)) =
+    [None; Some OBok; None; Some (OBerr EIntRange); Some OBok; None; Some OBok; None; Some OBok; None] /\
+  map (fun o => match o with HTables ((_, TRows _ rows) :: _) => map (fun r => (fst r, snd r)) rows | _ => [] end)
+      (firstn 2 (skipn 11 (run_h init_sys hx_case)) ++ skipn 16 (run_h init_sys hx_case)) =
+    [[(11, [VInt 0]); (12, [VInt 1]); (13, [VInt 2]); (14, [VInt 3]); (15, [VInt 4]); (16, [VInt 5]);
+      (17, [VInt 6]); (18, [VInt 7]); (19, [VInt 100])]; [];
+     [(11, [VInt 50]); (12, [VInt 50]); (14, [VInt 3]); (15, [VInt 4]); (16, [VInt 5]);
+      (17, [VInt 6]); (18, [VInt 7]); (19, [VInt 100])];
+     []; [(11, [VInt 50]); (12, [VInt 50]); (14, [VInt 3]); (15, [VInt 4]); (16, [VInt 5]);
+      (17, [VInt 6]); (18, [VInt 7]); (19, [VInt 100])]]%N.
+Proof. vm_compute. repeat split; reflexivity. Qed.
+
+(* the oracle is not the constant true on such cases: the same events with a read-back after the
+   first crash that shows the SECOND row of the INSERT without the first (a non-prefix), or an id
+   that was used before, are rejected *)
+Definition hx_short : list hevent := map HEv ex_pre ++ [HEv (EvCrashInLog ex_stmt 1); HReadTables ["t"]].
+Definition hx_obs (rows : list (N * row)) : list hobs :=
+  firstn 10 (run_h init_sys hx_short) ++ [HTables [("t", TRows ["a"] rows)]].
+Definition hx_base : list (N * row) :=
+  [(11, [VInt 0]); (12, [VInt 1]); (13, [VInt 2]); (14, [VInt 3]); (15, [VInt 4]); (16, [VInt 5]); (17, [VInt 6]); (18, [VInt 7])]%N.
+Example C03_oracle_rejects :
+  spec_accepts_strict (hx_short, hx_obs (hx_base ++ [(19%N, [VInt 100])])) = true /\
+  spec_accepts_strict (hx_short, hx_obs (hx_base ++ [(19%N, [VInt 101])])) = false /\
+  spec_accepts_strict (hx_short, hx_obs (hx_base ++ [(19%N, [VInt 100]); (20%N, [VInt 102])])) = false /\
+  spec_accepts_strict (hx_short, hx_obs (hx_base ++ [(18%N, [VInt 100])])) = false /\
+  spec_accepts_strict (hx_short, hx_obs hx_base) = true /\
+  spec_accepts_strict (hx_short, hx_obs (hx_base ++ [(19%N, [VInt 100]); (20%N, [VInt 101]); (21%N, [VInt 102])])) = true.
+Proof. vm_compute. repeat split; reflexivity. Qed.
